@@ -137,3 +137,22 @@ def verify_module(modname, nproc=8):
         return [_job(j) for j in jobs]
     with mp.get_context('fork').Pool(min(nproc, len(jobs))) as pool:
         return pool.map(_job, jobs, chunksize=1)
+
+
+def lemma_report():
+    """The machine-checked lemmas of the sequence theory (pv/vc/lemmas.py) as a report of their own: one obligation per lemma."""
+    from .vc import lemmas
+    rep = FunctionReport('pv/vc/lemmas.py', 'sequence-theory lemmas used as axioms by the verifier')
+    t0 = time.time()
+    for name, verdict, sec in lemmas.check_all():
+        ob = S.Obligation('pv/vc/lemmas.py::%s' % name, [], None, function='pv/vc/lemmas.py', kind='lemma')
+        ob.verdict = verdict if verdict in ('discharged', 'refuted') else 'unknown'
+        ob.backend = 'z3-%s (quantified, MBQI/E-matching)' % z3.get_version_string()
+        ob.seconds = sec
+        ob.reason = '' if ob.verdict == 'discharged' else verdict
+        ob.meta = {'base': ob.name}
+        rep.obligations.append(ob)
+    rep.sha = ''
+    rep.vacuity = []
+    rep.seconds = time.time() - t0
+    return rep
